@@ -356,7 +356,7 @@ func checkC05(c *Ctx, r *Report) {
 		}
 		// an arm is a comparison of a byte with the marker whose equal edge goes on: `case SOH:`,
 		// `if c == SOH`, or the guard clause `if c != SOH { return err }` (ip_g8.go)
-		handled := g8MarkerArms(rfn)
+		handled := j2MarkerArms(c, rfn) // over the call tree below readCompressed (ip_j2.go)
 		for _, m := range []struct {
 			name string
 			v    int64
@@ -379,26 +379,7 @@ func checkC05(c *Ctx, r *Report) {
 		}
 		// zero length byte means 256
 		o := r.Add("C05-frame", fnName(rfn), "length byte 0 means 256", c.pos(rfn.Pos()))
-		found := false
-		eachInstr(rfn, func(_ *ssa.BasicBlock, _ int, instr ssa.Instruction) {
-			ph, ok := instr.(*ssa.Phi)
-			if !ok {
-				return
-			}
-			for i, e := range ph.Edges {
-				if k, isC := constInt(e); isC && k == 256 {
-					// the edge must be taken exactly when the other value is zero
-					pred := ph.Block().Preds[i]
-					for _, cd := range append(condsAt(pred), edgeCond(pred, ph.Block())...) {
-						if b, ok := cd.V.(*ssa.BinOp); ok && b.Op == token.EQL && cd.Truth {
-							if z, isC := constInt(b.Y); isC && z == 0 {
-								found = true
-							}
-						}
-					}
-				}
-			}
-		})
+		found := j2ZeroMeans256(c, rfn) // anywhere in the call tree below readCompressed (ip_j2.go)
 		if found {
 			o.OK("a length of 0 is replaced by 256 before the block is read")
 		} else {
@@ -411,12 +392,7 @@ func checkC05(c *Ctx, r *Report) {
 				nW++
 			}
 		}
-		nR := 0
-		for _, ci := range callsTo(rfn, false, "bufio.Reader.ReadString") {
-			if k, isC := constInt(ci.Common().Args[1]); isC && k == 0 {
-				nR++
-			}
-		}
+		nR := j2DelimitedReads(c, rfn, 0) // one per call path in the tree below readCompressed (ip_j2.go)
 		r.Check("C05-frame", "fbb.writeCompressed/readCompressed", "title and offset NUL terminated", c.pos(wfn.Pos()), nW == 2 && nR == 2,
 			"the sender writes two NUL terminators, the receiver reads two NUL terminated strings", fmt.Sprintf("sender writes %d NUL terminators, receiver reads %d NUL terminated strings; the header has exactly two (title, offset)", nW, nR))
 	}
@@ -841,80 +817,9 @@ func hdrCheckRule(c *Ctx, r *Report, rule string) {
 		r.Fail(rule, "anchor readCompressed not found")
 		return
 	}
-	where := fnName(fn)
-	isReadByte := func(v ssa.Value) bool {
-		if cv, ok := v.(*ssa.Convert); ok {
-			v = cv.X
-		}
-		ex, ok := v.(*ssa.Extract)
-		if !ok || ex.Index != 0 {
-			return false
-		}
-		call, ok := ex.Tuple.(*ssa.Call)
-		return ok && callName(&call.Call) == "bufio.Reader.ReadByte"
-	}
-	// rawSource: v is the result of a ReadString on the session reader, possibly re-sliced
-	var rawSource func(v ssa.Value, depth int) *ssa.Call
-	rawSource = func(v ssa.Value, depth int) *ssa.Call {
-		if depth > 6 {
-			return nil
-		}
-		switch x := v.(type) {
-		case *ssa.Slice:
-			return rawSource(x.X, depth+1)
-		case *ssa.Extract:
-			if call, ok := x.Tuple.(*ssa.Call); ok && x.Index == 0 && callName(&call.Call) == "bufio.Reader.ReadString" {
-				return call
-			}
-		case *ssa.UnOp:
-			if x.Op == token.MUL {
-				if o := origin(x); o != ssa.Value(x) {
-					return rawSource(o, depth+1)
-				}
-			}
-		}
-		return nil
-	}
-	found := false
-	eachInstr(fn, func(_ *ssa.BasicBlock, _ int, in ssa.Instruction) {
-		b, ok := in.(*ssa.BinOp)
-		if !ok || (b.Op != token.EQL && b.Op != token.NEQ) {
-			return
-		}
-		var lenSide ssa.Value
-		switch {
-		case isReadByte(origin(b.X)):
-			lenSide = b.Y
-		case isReadByte(origin(b.Y)):
-			lenSide = b.X
-		default:
-			return
-		}
-		lf := newLin()
-		lf.addValue(origin(lenSide))
-		if !lf.ok || len(lf.lens) == 0 {
-			return // comparison of a marker byte with a constant, etc.
-		}
-		found = true
-		o := r.Add(rule, where, "header length comparison", c.pos(b.Pos()))
-		srcs := map[*ssa.Call]bool{}
-		for v := range lf.lens {
-			call := rawSource(v, 0)
-			if call == nil {
-				o.Bad("the SOH length byte is compared with the length of %s, which is not the string as read from the wire (decoded, trimmed or otherwise transformed): a conforming non-ASCII or word-encoded title is refused with a header length mismatch", pathOf(v))
-				return
-			}
-			srcs[call] = true
-		}
-		if len(srcs) != 2 {
-			o.Bad("the measured header length covers %d of the two NUL-terminated header strings", len(srcs))
-			return
-		}
-		o.OK("length byte compared with len(title)+len(offset)+%d of the two strings as read from the wire", lf.k)
-	})
-	if !found {
-		r.Add(rule, where, "header length comparison", c.pos(fn.Pos())).Bad("no comparison of the SOH length byte with measured lengths found (unresolved)")
-	}
+	// decided over the static call tree below readCompressed (ip_j2.go): the comparison may be made in a
+	// helper, the strings handed back by a helper that reads them and removes the terminator
+	j2HdrCheckRule(c, r, rule, fn)
 }
 
 // fieldOrderRule: the proposal line carries type, MID, size, compressed size in that order on both
